@@ -401,6 +401,7 @@ func init() {
 		ruleFormatData(c, "FORMAT-DATA", p.ModulePkgs())
 		ruleNilBreak(c, "NIL-ELEMENT-BREAK", p.ModulePkgs())
 		ruleWalkCut(c, "WALK-CUT", p.ModulePkgs(), 0)
+		ruleMapAliasMutated(c, "MAP-ALIAS-MUTATED", p.ModulePkgs())
 		ruleIndexedReturn(c, "INDEXED-RETURN-SORTED", p.ModulePkgs())
 		ruleMemoDropsResult(c, "MEMO-DROPS-RESULT", p.ModulePkgs())
 		ruleInPlaceFilter(c, "INPLACE-FILTER-PARAM", p.ModulePkgs())
